@@ -260,5 +260,32 @@ pub closed spec fn last_from_le(s: Seq<EntityRight>, d: i64) -> bool { s.len() >
             // [auth_has_user] ever listed (enabled or not) as user or user admin of the group
             r == (self.users@.contains_key(*user) || self.user_admins@.contains_key(*user)),
 //@ end
+
+//@ extract src/database/room.rs :: impl Room / fn has_user
+//@ result r
+//@ attr #[verifier::exec_allows_no_decreases_clause]
+//@ attr #[verifier::loop_isolation(false)]
+//@ insert body-start
+        proof { assert(<Vec<u8> as PartialEqSpec<Vec<u8>>>::obeys_eq_spec()); }
+//@ loop "for entry in &self.admins" iter ita
+            invariant
+                iter_covers(self.admins@, ita.seq()),
+                forall|k: Vec<u8>, i: int| #[trigger] self.admins@.contains_key(k) && 0 <= i < self.admins@[k]@.len() && (#[trigger] self.admins@[k]@[i]).verifying_key@ =~= user@
+                    ==> exists|j: int| ita.index@ <= j < ita.seq().len() && *(#[trigger] ita.seq()[j]).0 == k,
+//@ loop "for u in entry.1" iter itu
+                invariant
+                    forall|i: int| 0 <= i < itu.index@ ==> !((#[trigger] entry.1@[i]).verifying_key@ =~= user@),
+//@ loop "for entry in &self.authorisations" iter it
+            invariant
+                iter_covers(self.authorisations@, it.seq()),
+                !(exists|k: Vec<u8>, i: int| #[trigger] self.admins@.contains_key(k) && 0 <= i < self.admins@[k]@.len() && (#[trigger] self.admins@[k]@[i]).verifying_key@ =~= user@),
+                forall|id: Uid| self.authorisations@.contains_key(id)
+                    && (self.authorisations@[id].users@.contains_key(*user) || self.authorisations@[id].user_admins@.contains_key(*user))
+                    ==> exists|i: int| it.index@ <= i < it.seq().len() && *(#[trigger] it.seq()[i]).0 == id,
+//@ spec
+        ensures
+            // [has_user_eq_ever_listed]{C08} true exactly when the key was EVER listed in the room, enabled or not (this is not membership)
+            r == spec_ever_listed(*self, *user),
+//@ end
 } // verus!
 fn main() {}
